@@ -903,6 +903,9 @@ func init() {
 			}
 			return c13VI(a[0].TV.M["count"].I * 10), ok
 		}})
+	// a parameter of a named string type: arguments are converted as for string
+	c13Reg(&c13Fn{Name: "hSlug", Params: []string{"string"}, Go: func(s NamedString) string { return "/" + string(s) },
+		Ref: func(a []c13V) (c13V, c13St) { return c13VS("/" + a[0].S), ok }})
 	// an array parameter: Go converts a slice that is long enough, a shorter one is an impossible conversion
 	c13Reg(&c13Fn{Name: "hArr2", Params: []string{"any"}, Go: func(a [2]int) int { return a[0]*10 + a[1] },
 		Ref: func(a []c13V) (c13V, c13St) {
